@@ -632,14 +632,14 @@ fn tampers(h: &Honest, ci: usize, present: &[usize], thorough: bool) -> Vec<Tamp
             let mut x = o.clone();
             x.parent = w.parent;
             x.priority = o.priority.clone();
-            if !present.contains(&j) {
+            if !present.contains(&j) && x != *o {
                 add("swap", format!("c{j} re-parented onto this parent"), x, true);
             }
         }
     }
     // ---- the data bytewise: DESIGN 4.8 over every field of the encoding
     let other = h.cmds.iter().enumerate().find(|(j, o)| *j != ci && o.data.len() == w.data.len()).map(|(_, o)| o.data.clone());
-    for c in corruptions(&w.data, &lay.fields, other.as_deref(), Positions::All) {
+    for c in corruptions(&w.data, &lay.fields, other.as_deref(), if thorough { Positions::All } else { Positions::AllAlphabetOnly }) {
         let (class, bound) = field_class(&c.name);
         let mut x = w.clone();
         x.data = c.bytes;
@@ -709,6 +709,9 @@ fn run_case(ctx: &Ctx, h: &Honest, case: &Case) -> CaseOut {
             Ok(1) if obs1.as_ref().is_some_and(|ob| ob.cmds.contains_key(&hexs(&honest.id))) && r.sink.committed.len() > eff0 => {
                 t.count("accepted_honest", 1);
                 t.outcome("honest:accepted");
+                if case.ci == 1 {
+                    t.sample(json!({"history": ["deliver base", "deliver honest command"], "command": cname, "base": case.base, "wire": honest.to_json(), "result": "accepted", "effects": r.sink.committed[eff0..].to_vec(), "observation": obs1.as_ref().map(|x| x.short())}));
+                }
             }
             other => t.violation(
                 format!("{cname}/{}/honest", case.base_name),
@@ -721,6 +724,13 @@ fn run_case(ctx: &Ctx, h: &Honest, case: &Case) -> CaseOut {
     };
 
     let what = format!("{cname}/{}/{}:{}", case.base_name, tam.class, tam.name);
+    // stable key: field class + modification shape (which honest command / base it was seen on is in
+    // the description and the replay file)
+    let mut shape = tam.name.clone();
+    for j in 0..h.cmds.len() {
+        shape = shape.replace(&format!("c{j}"), "other");
+    }
+    let vkey = format!("{}:{shape}", tam.class);
     let replay = || json!({"command": cname, "base": case.base, "class": tam.class, "modification": tam.name, "wire": tam.wire.to_json(), "honest_wire": honest.to_json()});
     t.count("deliveries_tampered", 1);
     t.count(&format!("class_{}", tam.class), 1);
@@ -734,8 +744,10 @@ fn run_case(ctx: &Ctx, h: &Honest, case: &Case) -> CaseOut {
     let outcome = match &res {
         Ok(0) => "skipped".to_string(),
         Ok(_) => "accepted".to_string(),
+        Err(e) if e.starts_with("PANIC") => format!("panicked({})", e.trim_start_matches("PANIC: ")),
         Err(e) => {
             let e = e.split(':').take(3).collect::<Vec<_>>().join(":");
+            let e = if e.contains("no such parent") { "add_commands: no such parent".to_string() } else { e };
             format!("refused({})", e.trim())
         }
     };
@@ -748,15 +760,22 @@ fn run_case(ctx: &Ctx, h: &Honest, case: &Case) -> CaseOut {
         "unnamed_field"
     };
     t.outcome(&format!("{scope}:{}:{outcome}", tam.class));
+    if case.ci == 2 && case.base_name == "ancestors" && ["id^bit0", "author:=device1", "kind:=IncrementCounter", "parent:=c0", "data:signature[0]=00"].contains(&tam.name.as_str()) {
+        t.sample(json!({"history": ["deliver base", "deliver modified command", "deliver honest command"], "command": cname, "base": case.base, "class": tam.class, "modification": tam.name, "modified_wire": tam.wire.to_json(), "result": outcome, "observation_unchanged": unchanged}));
+    }
     let refused = !matches!(res, Ok(n) if n > 0);
     if let Err(e) = &res {
         if let Some(msg) = e.strip_prefix("PANIC: ") {
             t.count("panics_on_modified_input", 1);
+            if !tam.bound || equiv {
+                t.count("panics_on_unnamed_field", 1);
+            } else {
             t.violation(
                 format!("panic:{msg}"),
                 format!("delivering a modified command panicked the replica instead of refusing it (first seen: {what}); location {}", mcx::last_panic_location()),
                 replay(),
             );
+            }
         }
     }
     if equiv {
@@ -786,7 +805,7 @@ fn run_case(ctx: &Ctx, h: &Honest, case: &Case) -> CaseOut {
             if new_effects > 0 {
                 why.push(format!("{new_effects} effect(s) committed"));
             }
-            t.violation(what.clone(), format!("modified command ({}) was not cleanly refused [{outcome}]: {}", tam.name, why.join("; ")), replay());
+            t.violation(vkey.clone(), format!("{cname} on base {:?}: modified command ({}) was not cleanly refused [{outcome}]: {}", case.base, tam.name, why.join("; ")), replay());
         }
     } else {
         t.count("unnamed_field_cases", 1);
@@ -797,6 +816,13 @@ fn run_case(ctx: &Ctx, h: &Honest, case: &Case) -> CaseOut {
         }
     }
 
+    if !refused && tam.bound && !equiv {
+        let res2 = r.deliver(g, std::slice::from_ref(honest));
+        o.transitions += 1;
+        let obs2 = r.observe(g).unwrap_or_else(|e| fail("observe after honest delivery", e));
+        let stored_honest = obs2.as_ref().is_some_and(|ob| ob.cmds.get(&hexs(&honest.id)).is_some_and(|c| c.2 == honest.data && c.0.len() == 1));
+        t.outcome(&format!("after_accepted_forgery:honest_delivery:{}:{}", match &res2 { Ok(0) => "skipped".into(), Ok(_) => "accepted".into(), Err(e) => format!("refused({})", e.split(':').take(2).collect::<Vec<_>>().join(":")) }, if stored_honest { "honest_command_stored" } else { "honest_command_not_stored" }));
+    }
     // second step: the honest command must still be accepted and give the honest observation
     if refused && unchanged {
         let res2 = r.deliver(g, std::slice::from_ref(honest));
@@ -808,7 +834,7 @@ fn run_case(ctx: &Ctx, h: &Honest, case: &Case) -> CaseOut {
         if ok {
             t.count("honest_accepted_after_tampered", 1);
         } else if !equiv {
-            t.violation(format!("{what}:then-honest"), format!("after the refused modified command the honest command was not accepted: {res2:?}; {}", obs2.as_ref().map(|x| x.short()).unwrap_or_default()), replay());
+            t.violation(format!("{vkey}:then-honest"), format!("{cname} on base {:?}: after the refused modified command ({}) the honest command was not accepted: {res2:?}; {}", case.base, tam.name, obs2.as_ref().map(|x| x.short()).unwrap_or_default()), replay());
         }
         // the observation must be that of the honest history (compared by the caller through canon)
         o.tally.counters.insert(format!("__final:{}:{}", case.ci, case.base_name), obs2.map(|x| x.canon()).unwrap_or(0));
@@ -875,7 +901,7 @@ pub fn run(args: &Args) {
             if let (Some(want), Some(tm)) = (honest_final.get(&key), &case.tamper) {
                 if *want != v && !equivalent(&tm.wire, &h.cmds[case.ci]) {
                     out.tally.violation(
-                        format!("c{}.{}/{}/{}:{}:then-honest:observation", case.ci, h.names[case.ci], case.base_name, tm.class, tm.name),
+                        format!("{}:{}:then-honest:observation", tm.class, tm.name),
                         "modified-then-honest history ends in a different observation than the honest history".to_string(),
                         json!({"command": case.ci, "base": case.base, "modification": tm.name}),
                     );
@@ -900,9 +926,10 @@ pub fn run(args: &Args) {
     rep.set(
         "bounds",
         format!(
-            "2 registered devices + 1 observing replica; honest script of 6 commands (one fork); bases: ancestors{}; modifications: every id bit, parent id bits ({}), parent := every stored command, parent max-cut, parent kind (none/merge), priority, policy bytes, author := other/unregistered device, kind := every command name, fields/signature/envelope/data swaps between honest commands, DESIGN 4.8 over every byte of the serialized command (7-value alphabet, every bit, every truncation, trailing byte, re-cuts, length fields); every refused modification followed by the honest delivery",
+            "2 registered devices + 1 observing replica; honest script of 6 commands (one fork); bases: ancestors{}; modifications: every id bit, parent id bits ({}), parent := every stored command, parent max-cut, parent kind (none/merge), priority, policy bytes, author := other/unregistered device, kind := every command name, fields/signature/envelope/data swaps between honest commands, DESIGN 4.8 over every byte of the serialized command (7-value alphabet{}, every truncation, trailing byte, re-cuts, length fields); every refused modification followed by the honest delivery",
             if thorough { " and all-non-descendants for every modification" } else { " (+ all-non-descendants for id/parent/swap modifications)" },
-            if thorough { "all 256" } else { "8" }
+            if thorough { "all 256" } else { "8" },
+            if thorough { ", every single-bit flip" } else { "" }
         ),
     );
     rep.set("rule", "states = distinct observation hashes and distinct (command, field class, outcome, observation) tuples; transitions = sync deliveries executed (add_commands+commit); traces = histories run on the real ClientState/VmPolicy");
